@@ -92,8 +92,29 @@ impl IntoData for i64 {
 
 impl IntoData for i128 {
     fn as_data(&self) -> PlutusData {
-        let int = Int::try_from(*self).unwrap();
-        PlutusData::BigInt(BigInt::Int(int))
+        if let Ok(int) = Int::try_from(*self) {
+            return PlutusData::BigInt(BigInt::Int(int));
+        }
+
+        // outside the range of a plain CBOR integer: use the bignum forms, where a
+        // negative n is stored as the magnitude of -1 - n
+        let (magnitude, negative) = if *self < 0 {
+            ((-1 - *self) as u128, true)
+        } else {
+            (*self as u128, false)
+        };
+
+        let bytes: Vec<u8> = magnitude
+            .to_be_bytes()
+            .into_iter()
+            .skip_while(|b| *b == 0)
+            .collect();
+
+        if negative {
+            PlutusData::BigInt(BigInt::BigNInt(BoundedBytes::from(bytes)))
+        } else {
+            PlutusData::BigInt(BigInt::BigUInt(BoundedBytes::from(bytes)))
+        }
     }
 }
 
